@@ -17,6 +17,8 @@ import (
 	"context"
 	"fmt"
 	"math/big"
+	"os"
+	"strconv"
 	"strings"
 	"sync"
 	"time"
@@ -31,7 +33,7 @@ import (
 func init() {
 	h.Register(&h.Prop{
 		ID:         "C04",
-		Rule:       "lib: n honest DistKeyGenerators, schedule of ProcessDeal/ProcessResponse deliveries: for n=3 every permutation of the 6 messages a recipient gets (2 deals + 4 responses), for each of the 3 recipients (all 2160 in thorough - this is the exhaustive part -, sampled in quick; deliveries to different recipients commute, so per-recipient orders are the quotient), plus random global schedules n<=7 with re-deliveries and not-yet-produced messages; mem: the real session layer and stages (dkgnet.Sim), for n=3 every order of the 7 events of a recipient (start, 2 keys, 2 deals, 2 Responses messages), for each of the 3 recipients (all 3 x 5040 in thorough - exhaustive too -, 1/120 in quick), plus random global schedules n<=7; net: the real NewPDKG/Loop/Grouping over the in-memory network with drop/loseack/delay policies and start skews (6 scenarios in quick, 11 in thorough: a SAMPLE, never exhaustive); `exhaustive` in the evidence of a thorough run refers to the two per-recipient order spaces of lib and mem only; non-trivial = not the canonical deals-then-responses order; distinct = distinct case line",
+		Rule:       "lib: n honest DistKeyGenerators, schedule of ProcessDeal/ProcessResponse deliveries: for n=3 every permutation of the 6 messages a recipient gets (2 deals + 4 responses), for each of the 3 recipients (all 2160 in thorough - this is the exhaustive part -, sampled in quick; deliveries to different recipients commute, so per-recipient orders are the quotient), plus random global schedules n<=7 with re-deliveries and not-yet-produced messages; mem: the real session layer and stages (dkgnet.Sim), for n=3 every order of the 7 events of a recipient (start, 2 keys, 2 deals, 2 Responses messages), for each of the 3 recipients (all 3 x 5040 in a thorough run - exhaustive too; they are split by parity over the two seeds of the run -, 1/120 in quick), plus random global schedules n<=7; net: the real NewPDKG/Loop/Grouping over the in-memory network with drop/loseack/delay policies and start skews (6 scenarios in quick, 11 in thorough: a SAMPLE, never exhaustive); `exhaustive` in the evidence of a thorough run refers to the two per-recipient order spaces of lib and mem only; non-trivial = not the canonical deals-then-responses order; distinct = distinct case line",
 		Gen:        gen,
 		Exec:       exec,
 		Exhaustive: func(tier string) bool { return tier == "thorough" },
@@ -662,10 +664,22 @@ func gen(tier string, rng *h.Rng, emit func(string)) {
 		emit(fmt.Sprintf("lib %d %d %s", seed(), n, strings.Join(ev, ",")))
 	}
 	// 4. member machines: every order of the 7 events of a recipient for n = 3
+	permNo, seedParity := 0, -1
+	if len(os.Args) > 4 && os.Args[1] == "gen" {
+		if v, err := strconv.ParseUint(os.Args[4], 10, 64); err == nil {
+			seedParity = int(v % 2)
+		}
+	}
 	for i := 0; i < 3; i++ {
 		in := incomingMem(3, i)
 		permutations(len(in), func(p []int) {
-			// thorough: ALL 5040 orders for each of the three recipients (review C round 5, finding 7)
+			// thorough: ALL 5040 orders for each of the three recipients (review C round 5, finding 7), split over the
+			// TWO seeds of a thorough run (seed and seed+1000003 differ in parity): each run of the generator emits
+			// the orders whose number has the parity of its seed, the two together every order exactly once
+			permNo++
+			if thorough && seedParity >= 0 && permNo%2 != seedParity {
+				return
+			}
 			if !thorough && rng.Intn(120) != 0 {
 				return
 			}
